@@ -25,13 +25,13 @@
    A release or a read of a dead block is Error UAF of the model, so [vrun ... = Ok] says there is none.
 
    NOT proved (no ownership model; covered by the runtime ledger of tools/props/c16.py only): the storage of
-   Array<String> elements (elements are values in SeqModel), the inside of HashTable (hash chains: C13's subject),
-   tag records (Tags.hpp), QExpression lists, the failure paths of the JSON and template parsers.
+   Array<String> elements (elements are values in SeqModel), tag records (Tags.hpp), QExpression lists, the failure paths of the JSON and template parsers.
    Whether a C++ destructor really runs is decided by the C++ runtime, not by these theorems. *)
 From Coq Require Import NArith List.
 From Qv Require Import SeqModel LedgerModel LedgerProofs LedgerProofsArray LedgerProofsString LedgerProofsStream LedgerProofsTop.
 From Qv Require Import LedgerValueModel LedgerProofsValue LedgerProofsValueOps LedgerProofsValueTop.
 From Qv Require Import LedgerNestedModel LedgerProofsNested.
+From Qv Require Import HtabLedgerModel HtabLedgerProofsTop.
 Import ListNotations.
 
 (* ---- all histories from the empty pool: the run succeeds (no release of a dead block, no access to one),
@@ -171,3 +171,42 @@ Theorem c16_nested_d52_resize_first_is_uaf : forall h tree d s c src,
   append_copy_resize_first (h, tree) d s true = Error UAF /\ append_move_resize_first (h, tree) d s true = Error UAF.
 Proof. exact d52_resize_first_is_uaf. Qed.
 Print Assumptions c16_nested_d52_resize_first_is_uaf.
+
+(* ================= phase 4: HashTable / HArray / HList storage, keys and values (coq/HtabLedgerModel.v) ================= *)
+(* One storage block per table (heads + items, HashTable::allocate; none while the capacity is 0); a live item owns its
+   key token and (HArray) its value token, a tombstone owns nothing.  Operations in the order of HashTable.hpp /
+   HArray.hpp as they stand: insert / get-or-create (may resize: new block, live items moved bitwise without being
+   disposed, old block released), Remove / RemoveIndex, Rename, Resize(n), Expect, Compress, Clear, Reset, Reserve, Sort,
+   copy and move assignment, += by copy, += by MOVE (adopts what is new, releases the old value and disposes the
+   source's key of what it does not adopt, source left empty), destruction.  Which item a key names is abstracted to
+   key names (finding it is C13's subject); capacity is a grow flag (both choices covered). *)
+
+(* ---- every history on a pool of n tables succeeds (no release of, no access through a dead block), keeps the
+        ledger, and destroying every table leaves nothing live ---- *)
+Theorem c16_htab_ledger : forall n ops, exists st st',
+  lrun ops (lstate0 n) = Ok st /\ lledger st /\ l_destroy_all st = Ok st' /\ llive_ids (fst st') = [] /\
+  snd st' = repeat ltable0 n.
+Proof. exact htab_ledger. Qed.
+Print Assumptions c16_htab_ledger.
+
+(* ---- per operation, from every ledger state ---- *)
+Theorem c16_htab_step : forall st o, lledger st ->
+  exists st', lstep st o = Ok st' /\ lledger st' /\ length (snd st') = length (snd st).
+Proof. exact lstep_ledger. Qed.
+Print Assumptions c16_htab_step.
+
+(* ---- the ledger means: no token has two owners, live = owned (no leak, nothing dangling) ---- *)
+Theorem c16_htab_ledger_meaning : forall st, lledger st ->
+  NoDup (pool_ids (snd st)) /\ (forall x, lv (fst st) x = true <-> In x (pool_ids (snd st))) /\
+  (forall x, In x (llive_ids (fst st)) <-> In x (pool_ids (snd st))).
+Proof. exact lledger_meaning. Qed.
+Print Assumptions c16_htab_ledger_meaning.
+
+(* ---- what the model's errors mean ---- *)
+Theorem c16_htab_release_not_live_is_error : forall h b, lv h b = false -> lfree h b = Error UAF.
+Proof. exact lfree_not_live_is_error. Qed.
+Print Assumptions c16_htab_release_not_live_is_error.
+
+Theorem c16_htab_touch_released_is_error : forall h b, lv h b = false -> ltouch h (Some b) = Error UAF.
+Proof. exact ltouch_released_is_error. Qed.
+Print Assumptions c16_htab_touch_released_is_error.
